@@ -156,6 +156,30 @@ EVOLUTION_MARKERS = (
 )
 
 
+def same_field_context(pert, pos):
+    """Which other mutations of the perturbed evolution name the same
+    (model, field) as the perturbed one?  (They are what lets the
+    pre-processor remove or rewrite it.)"""
+    if pos >= len(pert):
+        return 'with:nothing'
+    mj = pert[pos][1]
+    if len(mj) < 3 or not isinstance(mj[2], str):
+        return 'with:nothing'
+    names = {mj[2]}
+    if mj[0] == 'RenameField':
+        names.add(mj[3])
+    kinds = set()
+    for i, (_l, other) in enumerate(pert):
+        if i == pos or len(other) < 3 or other[1] != mj[1]:
+            continue
+        onames = {other[2]} if isinstance(other[2], str) else set()
+        if other[0] == 'RenameField':
+            onames.add(other[3])
+        if names & onames:
+            kinds.add(other[0])
+    return 'with:' + ('+'.join(sorted(kinds)) or 'nothing')
+
+
 def run_case(spec0, target, steps, op, pos, pert, stats, add):
     stats['cases'] += 1
     verdict = reference_verdict(spec0, target, pert)
@@ -201,8 +225,8 @@ def run_case(spec0, target, steps, op, pos, pert, stats, add):
             # field, deletes a primary key or drops a needed initial value
             # (the reference model refuses it) - and was executed
             stats['accepted_undetermined'] += 1
-            add('C12|reference-invalid-evolution-executed|%s|in:%s' % (
-                shape, ' ; '.join(mj[0] for _l, mj in pert)), replay, {'statements': [q for q, _p in effects][:5],
+            add('C12|reference-invalid-evolution-executed|%s|%s' % (
+                shape, same_field_context(pert, pos)), replay, {'statements': [q for q, _p in effects][:5],
                          'stdout': res.stdout[-300:]})
         return
     stats['rejected'] += 1
